@@ -4,7 +4,8 @@
    in Proofs/FetchQuery_proofs.v. *)
 From Coq Require Import ZArith List Bool Sorted.
 Import ListNotations.
-Require Import Grist.Lib.PyVal Grist.Model.FetchQuery Grist.Proofs.FetchQuery_proofs.
+Require Import Grist.Lib.PyVal Grist.Lib.PyImp Grist.Model.FetchQuery Grist.Model.FetchQueryPy.
+Require Import Grist.Proofs.FetchQuery_proofs GristGen.FetchQuery_gen Grist.Proofs.FetchQuery_bridge.
 Open Scope Z_scope.
 
 (* For all tables, flags and queries whose columns exist: the result is the declarative filter
@@ -66,6 +67,26 @@ Theorem C41_unhashable_handled : forall x vals,
   truth (cell_in x (prep_values vals)) = py_in x vals.
 Proof. exact cell_in_prep. Qed.
 
+(* The tie to the source.  GristGen.FetchQuery_gen.fetch_table is Engine.fetch_table as translated from
+   /repo/sandbox/grist/engine.py by harness/imp2v.py on every run (statement by statement: the query loop with
+   set()/except TypeError, the row loop with its for/break/else and the caught TypeError, the column loop with the
+   flags).  It equals the hand model for all tables and queries; the hypothesis is that column ids are distinct
+   (all_columns is a dict keyed by column id; the code stores the result in a dict keyed by it). *)
+Theorem C41_source_bridge : forall tables table_id formulas private q,
+  NoDup (map col_id (t_cols (tables table_id))) ->
+  fetch_table tables table_id formulas private (query_in q) = lift (fetch (tables table_id) formulas private q).
+Proof. exact fetch_table_bridge. Qed.
+
+(* ... hence the translated source itself returns the declarative filter *)
+Theorem C41_source_fetch_eq_filter : forall tables table_id formulas private q,
+  NoDup (map col_id (t_cols (tables table_id))) ->
+  (forall cid, In cid (map fst q) -> get_column (tables table_id) cid <> None) ->
+  fetch_table tables table_id formulas private (query_in q) = Val (spec_fetch (tables table_id) formulas private q).
+Proof.
+  intros tables table_id f p q Hnd Hc. rewrite (fetch_table_bridge _ _ _ _ _ Hnd), (fetch_eq_filter _ _ _ _ Hc).
+  reflexivity.
+Qed.
+
 (* Non-vacuity: a table with rows 1,2,4 (row 3 removed), a data column A = [1.0, [a], True] and a formula
    column F; the query A in {1} takes the set branch (and must skip the unhashable cell [a]), the query
    A in {[a], 1} takes the list branch. *)
@@ -80,5 +101,11 @@ Example C41_nonvacuous :
   fetch t true false [([65], [])] = Ok ([], [([65], []); ([70], [])]) /\
   fetch t true false [([90], [VInt 1])] = ErrKeyError [90] /\
   prep_values [VInt 1] = QSet [VInt 1] /\ prep_values [VList [a]; VInt 1] = QList [VList [a]; VInt 1] /\
-  cell_in (VList [a]) (QSet [VInt 1]) = None.
-Proof. vm_compute. repeat split. Qed.
+  cell_in (VList [a]) (QSet [VInt 1]) = None /\
+  NoDup (map col_id (t_cols t)) /\
+  fetch_table (fun _ => t) [84] true false (query_in [([65], [VInt 1])]) =
+  Val ([1; 4], [([65], [VFloat 2; VBool true]); ([70], [VInt 7; VInt 9])]).
+Proof.
+  cbv zeta. repeat split; try (vm_compute; reflexivity).
+  repeat constructor; cbn; intuition discriminate.
+Qed.
